@@ -56,6 +56,12 @@ impl SlotIndex {
         self.0 == FREE_LIST_END
     }
 
+    /// Verification hook: the raw stored index, including the free bit.
+    #[cfg(gecs_verif)]
+    pub(crate) const fn verif_raw(&self) -> u32 {
+        self.0
+    }
+
     /// Returns the data index this slot points to, if valid (e.g. not free).
     #[inline(always)]
     pub(crate) fn index_data(&self) -> Option<TrimmedIndex> {
@@ -140,6 +146,12 @@ impl Slot {
     #[inline(always)]
     pub(crate) fn version(&self) -> SlotVersion {
         self.version
+    }
+
+    /// Verification hook: directly sets this slot's generational version.
+    #[cfg(gecs_verif)]
+    pub(crate) fn verif_set_version(&mut self, version: SlotVersion) {
+        self.version = version;
     }
 
     /// Assigns a slot to some data. This does not increment the version.
